@@ -22,7 +22,7 @@ package io
 // decoder is head in memory mode and rpos - (tail - head) in reader mode; every primitive's
 // effect is stated on that position, so it does not depend on how the reader cuts the stream.
 
-//@ modset DECWIN = dec.head, dec.tail, dec.buf, dec.Error, ghost.rpos[ival(dec.reader)]
+//@ modset DECWIN = dec.head, dec.tail, dec.buf, dec.Error, ghost.rpos[ival(dec.reader)], ghost.rfailed[ival(dec.reader)]
 
 //@ template decwf
 //@   requires dec != nil && 0 <= dec.head && dec.head <= dec.tail && dec.tail <= len(dec.buf)
@@ -59,6 +59,7 @@ package io
 //@   ensures [failed_refill_is_an_error] dec.reader != nil && !result ==> dec.head == 0 && dec.tail == 0 && dec.Error != nil &&
 //@       ghost.rpos[ival(dec.reader)] == old(ghost.rpos[ival(dec.reader)])
 //@   ensures [error_is_sticky] old(dec.Error) != nil ==> dec.Error != nil
+//@   ensures [gives_up_only_when_the_reader_reported_an_error] dec.reader != nil && !result ==> ghost.rfailed[ival(dec.reader)] == 1
 //@   loop 1 invariant dec.buf != nil && len(dec.buf) > 0 && ghost.rpos[ival(dec.reader)] == old(ghost.rpos[ival(dec.reader)]) && (old(dec.Error) != nil ==> dec.Error != nil)
 
 //@ func (*Decoder).NextByte
@@ -435,7 +436,7 @@ package io
 //@   requires dec.reader != nil ==> ghost.rpos[ival(dec.reader)] >= dec.tail &&
 //@       forall(j, off(dec.buf) + dec.head, off(dec.buf) + dec.tail, mem(dec.buf, j) == ghost.rstream[ival(dec.reader)][ghost.rpos[ival(dec.reader)] - dec.tail - off(dec.buf) + j])
 //@   requires dec.reader != nil ==> dec.buf == nil || len(dec.buf) > 0
-//@   modifies ghost.rpos[*]
+//@   modifies ghost.rpos[*], ghost.rfailed[*]
 
 // ---- leaf readers: whatever the bytes are, no panic, the window stays well formed ---------
 
@@ -446,7 +447,7 @@ package io
 //@   nopanic
 //@   havoc
 //@   use decwf
-//@   modifies ghost.rpos[ival(dec.reader)]
+//@   modifies ghost.rpos[ival(dec.reader)], ghost.rfailed[ival(dec.reader)]
 
 //@ funcs \(\*Decoder\)\.(read2Digit|read3Digit|read4Digit|readNsec|readTime|ReadTime|readDateTime|ReadDateTime|ReadStringAsBytes|readUnsafeString|readSafeString|ReadUnsafeString|ReadSafeString|ReadString|readUnsafeBytes|readBytes|ReadBytes|ReadUUID|ReadFloat32|ReadFloat64|AddReference) : template decleaf
 
@@ -469,7 +470,7 @@ package io
 //@ template decany
 //@   havoc
 //@   use decwf
-//@   modifies ghost.rpos[ival(dec.reader)]
+//@   modifies ghost.rpos[ival(dec.reader)], ghost.rfailed[ival(dec.reader)]
 
 //@ funcs \(\*Decoder\)\.(decode[A-Z][A-Za-z0-9]*|decode|Decode|defaultDecode|decodeError|decodeStringError|ReadObject|readObject|readObjectAsMap|fastDecode|fastDecodePtr) : template decany
 
@@ -482,7 +483,7 @@ package io
 //@   prop C04
 //@   havoc
 //@   use decwf
-//@   modifies ghost.rpos[ival(dec.reader)]
+//@   modifies ghost.rpos[ival(dec.reader)], ghost.rfailed[ival(dec.reader)]
 //@   atmake [allocation_bounded_by_the_rest_of_the_input] dec.reader != nil || makecap <= dec.tail - dec.head
 //@   loop 1 invariant [shape] 0 <= i && count >= 0 && len(names) == count && 0 <= dec.head && dec.head <= dec.tail && dec.tail <= len(dec.buf)
 //@   loop 1 invariant [room] dec.reader != nil ==> (dec.buf == nil || len(dec.buf) > 0) && ghost.rpos[ival(dec.reader)] >= dec.tail
@@ -497,7 +498,7 @@ package io
 //@   prop C04
 //@   havoc
 //@   use decwf
-//@   modifies ghost.rpos[ival(dec.reader)]
+//@   modifies ghost.rpos[ival(dec.reader)], ghost.rfailed[ival(dec.reader)]
 //@   atmake [allocation_bounded_by_the_rest_of_the_input] dec.reader != nil || makecap <= dec.tail - dec.head
 //@   loop 1 invariant [shape] 0 <= i && count >= 0 && len(slice) == count && 0 <= dec.head && dec.head <= dec.tail && dec.tail <= len(dec.buf)
 //@   loop 1 invariant [room] dec.reader != nil ==> (dec.buf == nil || len(dec.buf) > 0) && ghost.rpos[ival(dec.reader)] >= dec.tail
@@ -613,3 +614,7 @@ package io
 //@   stable enc.buf, enc.off, enc.Writer, enc.Error
 //@   ensures [everything_is_flushed] enc.Error == nil && enc.Writer != nil ==> enc.off == len(enc.buf)
 //@   ensures [an_earlier_error_is_reported_and_nothing_written] old(enc.Error) != nil ==> same(err, old(enc.Error)) && enc.off == old(enc.off)
+
+// values that are kept (strings, byte slices, interface{} contents) are never built from the
+// unsafe views of the window: the functions that produce them do not call the unsafe readers
+//@ rule no_calls from=\(\*Decoder\)\.(decodeString|decodeStringPtr|decodeBytes|decodeBytesPtr|decodeInterface|decodeInterfacePtr|ReadString|ReadSafeString|readSafeString|ReadBytes|readBytes|ReadStringAsBytes|readStringAsSafeBytes|Next|Until|decodeLongAsInterface|decodeDoubleAsInterface|decodeListAsInterface|decodeMapAsInterface|ReadObject|readObject|readObjectAsMap) to=(*Decoder).UnsafeUntil,(*Decoder).UnsafeNext,(*Decoder).readUnsafeString,(*Decoder).ReadUnsafeString,(*Decoder).readUnsafeBytes prop=C14
